@@ -144,7 +144,7 @@ func abSchema() []*descriptorpb.FileDescriptorProto {
 		fl("u_bool", 100, lOpt, tBool, oneofIdx(0)), fl("u_sint32", 101, lOpt, tSint32, oneofIdx(0), def("-7")), fl("u_fixed64", 102, lOpt, tFixed64, oneofIdx(0)),
 		fl("u_float", 103, lOpt, tFloat, oneofIdx(0), def("1.5")), fl("u_string", 104, lOpt, tString, oneofIdx(0), def("a,b")), fl("u_bytes", 105, lOpt, tBytes, oneofIdx(0)),
 		fl("u_enum", 106, lOpt, tEnum, tn("AbEnum"), oneofIdx(0)), fl("u_msg", 107, lOpt, tMessage, tn("AbMsg2"), oneofIdx(0)), fl("u_leaf", 108, lOpt, tMessage, tn("AbLeaf"), oneofIdx(0)),
-		fl("o_int64", 110, lOpt, tInt64, oneofIdx(1)), fl("o_string", 111, lOpt, tString, oneofIdx(1)))
+		fl("o_int64", 98, lOpt, tInt64, oneofIdx(1)), fl("o_string", 99, lOpt, tString, oneofIdx(1)))
 	leaf := &dp{Name: proto.String("AbLeaf"), Field: []*fdp{fl("req", 1, lReq, tString), fl("opt", 2, lOpt, tFixed32, def("9"))}}
 	file2 := &descriptorpb.FileDescriptorProto{Name: proto.String("c46/ab2.proto"), Package: proto.String(abPkg), Syntax: proto.String("proto2"),
 		Dependency: []string{"c46/ab_enum.proto", "c46/ab3.proto", "proto2_20160225_2fc053c5/test.proto", "proto2_20190205_c823c79e/test.proto"}, MessageType: []*dp{m2, leaf},
